@@ -2,7 +2,7 @@
    AdParser._evaluate_single / evaluate, the AdArray methods it dispatches to, the repaired
    arithmetic overloads of Operator); proofs: PP.Proofs.C02.  Numbers are canonical
    rationals (Qc), so "=" below is equality of values and Jacobians entry by entry. *)
-From Coq Require Import List ZArith QArith Qcanon Bool.
+From Coq Require Import List ZArith QArith Qcanon Bool Lia.
 Import ListNotations.
 From PP Require Import Model.C02 Proofs.C02.
 Local Open Scope Qc_scope.
@@ -63,37 +63,71 @@ Theorem C02_reverse_nodes_refuted :
     direct (overload_old Mul x y) e = Ok r /\
     parse (overload_old Mul x y) e = Err EUnknownOp.
 Proof.
-  exists (ONum (Q2Qc 2)), (OTree (Leaf (LVar [0%nat; 1%nat]))),
-    {| state := [Q2Qc 3; Q2Qc 5]; deriv := true |},
+  exists (ONum (Q2Qc 2)), (OTree (Leaf (LVar [0%nat; 1%nat] (-1) (-1)))),
+    (mkenv [Q2Qc 3; Q2Qc 5] {| st_ts := []; st_its := []; st_src_it0 := []; st_src_ts := [] |} true),
     (VAd [Q2Qc 6; Q2Qc 10] [[Q2Qc 2; Q2Qc 0]; [Q2Qc 0; Q2Qc 2]]).
   repeat split; vm_compute; reflexivity.
 Qed.
 Print Assumptions C02_reverse_nodes_refuted.
 
-(* Leaves at a previous time step / iterate (and time-dependent arrays) evaluate to the stored
-   values; evaluated with derivative they get a zero Jacobian; added to an AdArray - in
-   either operand order - they leave its Jacobian unchanged. *)
+(* A variable (md or atomic) at a previous time step - or, at the current time, a previous
+   iterate - evaluates to the values stored at that index, taken at its dofs IN THE ORDER OF
+   ITS SUB-VARIABLES (the order also used at the current state), independently of the state
+   and of the derivative flag; with derivative it gets a zero Jacobian.  Added to an AdArray -
+   in either operand order - a stored vector leaves the Jacobian unchanged. *)
 Theorem C02_prev_no_derivative :
-  (forall (v st : vec) (d : bool),
-      parse (Leaf (LStored v)) {| state := st; deriv := d |} = Ok (VVec v) /\
-      evaluate (Leaf (LStored v)) {| state := st; deriv := true |}
-      = Ok (VAd v (zero_mat (length v) (length st))) /\
-      evaluate (Leaf (LStored v)) {| state := st; deriv := false |} = Ok (VVec v)) /\
+  (forall dofs t i e v,
+      ((0 <= t)%Z /\ lookup (ts e) t = Ok v) \/
+      ((t < 0)%Z /\ (0 <= i)%Z /\ lookup (its e) i = Ok v) ->
+      parse (Leaf (LVar dofs t i)) e = Ok (VVec (take 0 v dofs)) /\
+      evaluate (Leaf (LVar dofs t i)) e
+      = if deriv e
+        then Ok (VAd (take 0 v dofs) (zero_mat (length (take 0 v dofs)) (length (state e))))
+        else Ok (VVec (take 0 v dofs))) /\
+  (forall pos t e v, (0 <= t)%Z -> lookup (src_ts e) t = Ok v ->
+      parse (Leaf (LTdda pos t)) e = Ok (VVec (take 0 v pos))) /\
   (forall x j v r, parse_node Add (VAd x j) (VVec v) = Ok r -> exists w, r = VAd w j) /\
   (forall x j v r, parse_node Add (VVec v) (VAd x j) = Ok r -> exists w, r = VAd w j).
 Proof.
-  split; [exact stored_leaf | split;
-    [exact stored_no_derivative_add | exact stored_no_derivative_add_flipped]].
+  split; [exact stored_leaf | split; [exact stored_tdda | split;
+    [exact stored_no_derivative_add | exact stored_no_derivative_add_flipped]]].
 Qed.
 Print Assumptions C02_prev_no_derivative.
+
+(* previous_timestep / previous_iteration of whole trees (transcription of
+   _get_previous_time_or_iterate): shifting by a and then by b steps is shifting by a + b -
+   in particular a shift applied to a tree that already contains shifted leaves moves THOSE
+   leaves further back as well. *)
+Theorem C02_shift_composes :
+  forall (prev_time : bool) (a b : Z) (t t' t'' : tree),
+    (0 < a)%Z -> (0 < b)%Z ->
+    shift_tree prev_time a t = Ok t' -> shift_tree prev_time b t' = Ok t'' ->
+    shift_tree prev_time (a + b) t = Ok t''.
+Proof. exact shift_tree_compose. Qed.
+Print Assumptions C02_shift_composes.
+
+(* Semantics of a time shift: for every tree whose time-dependent leaves are at previous time
+   steps, the tree shifted by s steps evaluates - value, Jacobian or error - to what the
+   original tree evaluates to when the s most recent stored time steps are dropped, i.e. every
+   such leaf reads exactly s steps further back (x^{n-1} - x^{n-2} becomes x^{n-2} - x^{n-3}). *)
+Theorem C02_shift_time_semantics :
+  forall (s : nat) (t t' : tree) (e : env),
+    (0 < s)%nat -> all_prev_time t = true ->
+    shift_tree true (Z.of_nat s) t = Ok t' ->
+    parse t' e = parse t (drop_steps s e).
+Proof. exact shift_time_semantics. Qed.
+Print Assumptions C02_shift_time_semantics.
 
 (* Non-vacuity:  arr - x / 2  and  arr / x  with a numpy array on the left, on a state of two
    dofs: the parser's flipped / redirected evaluation and the direct semantics give the
    displayed value and Jacobian. *)
 Example C02_nonvacuous :
-  let x := Leaf (LVar [0%nat; 1%nat]) in
+  let x := Leaf (LVar [0%nat; 1%nat] (-1) (-1)) in
   let arr := OArr [Q2Qc 1; Q2Qc 4] in
-  let e := {| state := [Q2Qc 2; Q2Qc (1 # 2)]; deriv := true |} in
+  let e := mkenv [Q2Qc 2; Q2Qc (1 # 2)]
+                 {| st_ts := [[Q2Qc 10; Q2Qc 20]; [Q2Qc 30; Q2Qc 50]]; st_its := [];
+                    st_src_it0 := []; st_src_ts := [] |} true in
+  let xp := Leaf (LVar [1%nat; 0%nat] 0 (-1)) in
   let t1 := overload Sub arr (OTree (overload Div (OTree x) (ONum (Q2Qc 2)))) in
   let t2 := overload Div arr (OTree x) in
   no_rops t1 = true /\ no_rops t2 = true /\
@@ -102,5 +136,10 @@ Example C02_nonvacuous :
   res_eqb (direct t1 e) (parse t1 e) = true /\
   res_eqb (parse t2 e) (Ok (VAd [Q2Qc (1 # 2); Q2Qc 8]
                                [[Q2Qc (-1 # 4); Q2Qc 0]; [Q2Qc 0; Q2Qc (-16)]])) = true /\
-  res_eqb (direct t2 e) (parse t2 e) = true.
+  res_eqb (direct t2 e) (parse t2 e) = true /\
+  (* (x - x.previous_timestep()).previous_timestep(), sub-variables in permuted order *)
+  shift_tree true 1 (Bin Sub x xp)
+  = Ok (Bin Sub (Leaf (LVar [0%nat; 1%nat] 0 (-1))) (Leaf (LVar [1%nat; 0%nat] 1 (-1)))) /\
+  res_eqb (parse (Bin Sub (Leaf (LVar [0%nat; 1%nat] 0 (-1))) (Leaf (LVar [1%nat; 0%nat] 1 (-1)))) e)
+          (Ok (VVec [Q2Qc (-40); Q2Qc (-10)])) = true.
 Proof. repeat split; vm_compute; reflexivity. Qed.
